@@ -11,6 +11,7 @@
 package zzverif
 
 import (
+	"sync"
 	"context"
 	"encoding/json"
 	"fmt"
@@ -180,6 +181,20 @@ var haveFirstNow bool
 // from 2006 01 02 15 04 05, 'T', separators and a UTC zone produce / consume fixed-width
 // digit strings (uninterpreted digits per component index). Natively a no-op.
 func TimeFormatDigits() {}
+
+// Threads runs fs concurrently. Under the engine the interleaving is chosen by the symbolic
+// scheduler (every schedule within the preemption bound); natively they are plain goroutines.
+func Threads(fs ...func()) {
+	var wg sync.WaitGroup
+	for _, f := range fs {
+		wg.Add(1)
+		go func(f func()) { defer wg.Done(); f() }(f)
+	}
+	wg.Wait()
+}
+
+// Yield marks a scheduling point inside a harness model (e.g. a database call).
+func Yield() {}
 
 // FirstNow returns the first reading of the controlled clock.
 func FirstNow() time.Time { return firstNow }
